@@ -43,6 +43,22 @@ class HierStream(Stream):
                 while comp["n"] != 2:
                     comp = hierlib.gen_comp(rng, 2)
                 d["edit"] = {"def": j, "expo": e, "comp": comp}
+                if rng.random() < 0.35:
+                    # instead: a placed sub-solver exposes one more of its free pins afterwards
+                    cands = []
+                    for jj, df in enumerate(d["defs"]):
+                        if jj == d["top"] or df.get("auto"):
+                            continue
+                        used = {tuple(x) for c in df["conns"] for x in c} | {(x[0], x[1]) for x in df["expo"]}
+                        for c, ch in enumerate(df["children"]):
+                            for q in range(hierlib.nports(d, ch)):
+                                if (c, q) not in used:
+                                    cands.append((jj, [c, q]))
+                    placed = {ch["sub"] for df in d["defs"] for ch in df["children"] if "sub" in ch}
+                    cands = [x for x in cands if x[0] in placed]
+                    if cands:
+                        jj, port = rng.choice(cands)
+                        d["edit"] = {"kind": "expose_more", "def": jj, "port": port}
             out.append(d)
         return out
 
@@ -83,6 +99,40 @@ class HierStream(Stream):
         return ("import sys; sys.path.insert(0,'/verif/harness'); import c02, netlib, json\n"
                 f"d=json.loads({json.dumps(d)!r})\n"
                 "m=c02.solve_top(d,d.get('edit')); print(netlib.observe_expo(m,[x[2] for x in d['defs'][d['top']]['expo']]))\n")
+
+
+def expose_more_candidates(d):
+    cands = []
+    for jj, df in enumerate(d["defs"]):
+        if jj == d["top"] or df.get("auto"):
+            continue
+        used = {tuple(x) for c in df["conns"] for x in c} | {(x[0], x[1]) for x in df["expo"]}
+        for c, ch in enumerate(df["children"]):
+            for q in range(hierlib.nports(d, ch)):
+                if (c, q) not in used:
+                    cands.append((jj, [c, q]))
+    placed = {ch["sub"] for df in d["defs"] for ch in df["children"] if "sub" in ch}
+    return [x for x in cands if x[0] in placed]
+
+
+class LateExpose(HierStream):
+    """a sub-solver that is already placed (and solved once inside its parent) exposes one more of its free pins;
+    the parent, which does not own that pin, must answer as before"""
+    name = "late_expose"
+
+    def generate(self, rng, tier):
+        out = []
+        while len(out) < (60 if tier == "quick" else 800):
+            d = hierlib.gen_hier(rng, ndefs=rng.choice([2, 2, 3]), max_children=3, max_pins=3, leaf_p=0.4)
+            if not d["defs"][d["top"]]["expo"] or not d["defs"][d["top"]]["conns"]:
+                continue
+            cands = expose_more_candidates(d)
+            if not cands:
+                continue
+            jj, port = rng.choice(cands)
+            d["edit"] = {"kind": "expose_more", "def": jj, "port": port}
+            out.append(d)
+        return out
 
 
 class BareStream(Stream):
@@ -129,7 +179,7 @@ TRUSTED = [
 ]
 
 if __name__ == "__main__":
-    main("C02", [HierStream(), BareStream()],
+    main("C02", [HierStream(), LateExpose(), BareStream()],
          level_text="props/C02.v; the correspondence builds nested Solvers in /repo (sub-solvers re-used, partial exposure at "
                     "every level, optional edit of a shared sub-solver between two parent solves) and lets Coq compare the "
                     "observed top-level matrix with BOTH the nested model (solve_hier) and the flat single-level circuit "
